@@ -29,9 +29,13 @@ def call_np(interp, name, args, kwargs, lineno):
         x = args[0]
         if is_arraylike(x):
             a = snap(x)
-            if name == 'asarray' and isinstance(x, (Box, View)):
-                return x
-            return Box(Arr(a.shape, a.fn, a.kind, tag=a.tag, origin=lineno, segs=a.segs, affine=a.affine))
+            dt = kwargs.get('dtype', args[1] if len(args) > 1 else None)
+            want = a.kind if dt is None else ('int' if _is_int_dtype(dt) else 'real')
+            if name == 'asarray' and isinstance(x, (Box, View)) and want == a.kind:
+                return x            # no conversion needed: the very same array (an alias, not a copy)
+            if want == 'int' and a.kind == 'real':
+                return Box(Arr(a.shape, lambda idx: A._trunc(a.at(idx)), 'int', tag=a.tag, origin=lineno))
+            return Box(Arr(a.shape, a.fn, want, tag=a.tag, origin=lineno, segs=a.segs, affine=a.affine if want == a.kind else None))
         if isinstance(x, (list, tuple)):
             arr = A.list_to_arr(list(x))
             dt = kwargs.get('dtype')
@@ -53,6 +57,31 @@ def call_np(interp, name, args, kwargs, lineno):
         return Box(A.hstack(ctx, list(pieces), origin=lineno))
     if name == 'tile':
         return Box(A.tile(ctx, args[0], args[1], origin=lineno))
+    if name == 'stack':
+        pieces = args[0]
+        ax = kwargs.get('axis', args[1] if len(args) > 1 else ZERO)
+        if not isinstance(pieces, (list, tuple)) or not pieces or not (isinstance(ax, Rat) and ax.is_const()):
+            raise AnalysisError("np.stack: a literal sequence of arrays and a constant axis are required")
+        arrs = [snap(p_) for p_ in pieces]
+        nd = arrs[0].ndim
+        for a_ in arrs[1:]:
+            if a_.ndim != nd or any(not (x - y).is_zero() for x, y in zip(a_.shape, arrs[0].shape)):
+                raise AbstractRaise('ValueError', 'all input arrays must have the same shape', lineno)
+        axis = int(ax.const_value())
+        if axis < 0:
+            axis += nd + 1
+        if not 0 <= axis <= nd:
+            raise AbstractRaise('AxisError', 'axis out of bounds', lineno)
+        shape = list(arrs[0].shape)
+        shape.insert(axis, Rat.const(len(arrs)))
+
+        def stk(idx):
+            k = idx[axis]
+            if not k.is_const():
+                raise AnalysisError("np.stack result read at a symbolic position along the stacking axis")
+            return arrs[int(k.const_value())].at(tuple(idx[:axis]) + tuple(idx[axis + 1:]))
+        kind = 'int' if all(a_.kind == 'int' for a_ in arrs) else ('bool' if all(a_.kind == 'bool' for a_ in arrs) else 'real')
+        return Box(Arr(tuple(shape), stk, kind, origin=lineno))
     if name == 'concatenate':
         pieces = args[0]
         ax = kwargs.get('axis', args[1] if len(args) > 1 else ZERO)
@@ -70,10 +99,17 @@ def call_np(interp, name, args, kwargs, lineno):
         if name == 'full':
             shape = A.to_shape(ctx, args[0])
             v = R(args[1])
+            dt = kwargs.get('dtype')
+            kind = 'int' if _is_int_dtype(dt) else 'real' if dt is not None else A.scalar_kind(v)
         else:
-            shape = snap(args[0]).shape
+            src = snap(args[0])
+            shape = src.shape
             v = ONE if name == 'ones_like' else (R(args[1]) if name == 'full_like' else ZERO)
-        b = Box(A.const_arr(shape, v, 'real'))
+            dt = kwargs.get('dtype')
+            kind = 'int' if _is_int_dtype(dt) else 'real' if dt is not None else src.kind     # *_like inherits the dtype
+            if kind == 'int':
+                v = A._trunc(v)
+        b = Box(A.const_arr(shape, v, kind))
         b.cur.origin = lineno
         b.base_zero = v.is_zero()
         return b
@@ -90,9 +126,34 @@ def call_np(interp, name, args, kwargs, lineno):
         return Box(A.ravel_arr(ctx, snap(args[0])))
     if name == 'transpose' and len(args) == 1 and not kwargs:
         return Box(A.transpose(ctx, snap(args[0])))
+    if name == 'squeeze' and len(args) == 1 and not kwargs:
+        if isinstance(args[0], Rat):
+            return args[0]
+        a = snap(args[0])
+        keep = [k for k, n in enumerate(a.shape) if not (n.is_const() and n.const_value() == 1)]
+        if len(keep) == a.ndim:
+            return args[0]
+        for k, n in enumerate(a.shape):
+            if not n.is_const() and ctx.eq(n, ONE) is not False:
+                raise AnalysisError("np.squeeze of an axis whose length may be 1")
+
+        def sq(idx):
+            full = [ZERO] * a.ndim
+            for j, k in enumerate(keep):
+                full[k] = idx[j]
+            return a.at(tuple(full))
+        return _view_of(args[0], Box(Arr(tuple(a.shape[k] for k in keep), sq, a.kind, origin=lineno)))
     if name == 'atleast_1d' and len(args) == 1:
         a = snap(args[0])
         return args[0] if a.ndim >= 1 else Box(A.reshape(ctx, a, (ONE,), origin=lineno))
+    if name in ('mod', 'remainder', 'fmod') and len(args) == 2:
+        def md(x, y):
+            if x.is_const() and y.is_const() and y.const_value() != 0 and name != 'fmod':
+                return Rat.const(x.const_value() % y.const_value())
+            return Rat.atom(('fn2', name, x, y))
+        if all(isinstance(a_, Rat) for a_ in args):
+            return md(*args)
+        return Box(A.elementwise(ctx, md, [args[0], args[1]], origin=lineno))
     if name == 'diff':
         a = snap(args[0])
         if a.ndim != 1 or len(args) > 1 or kwargs:
@@ -104,8 +165,18 @@ def call_np(interp, name, args, kwargs, lineno):
         a = snap(args[0])
         width = args[1] if len(args) > 1 else kwargs.get('pad_width')
         mode = str(kwargs.get('mode', args[2] if len(args) > 2 else 'constant'))
-        if a.ndim != 1 or not (isinstance(width, Rat) and width.is_const() and width.const_value() == 1):
-            raise AnalysisError("np.pad: only 1-D arrays padded by one element per side are modelled")
+        if not (isinstance(width, Rat) and width.is_const() and width.const_value() == 1):
+            raise AnalysisError("np.pad: only a pad width of one element per side is modelled")
+        if a.ndim > 1:
+            if mode != 'constant' or 'constant_values' in kwargs:
+                raise AnalysisError("np.pad of an n-D array: only the default zero padding is modelled")
+            b = Box(A.const_arr(tuple(n + 2 for n in a.shape), ZERO, a.kind))       # np.pad keeps the dtype of its input
+            b.cur.origin = lineno
+            A.assign_index(ctx, b, tuple(Sl(ONE, R(-1)) for _ in a.shape), a, lineno)
+            b.log = []
+            return b
+        if a.ndim != 1:
+            raise AnalysisError("np.pad of a 0-d array")
         first = lambda k: A.index_arr(ctx, a, (Sl(R(k), R(k + 1)),))
         last = lambda k: A.index_arr(ctx, a, (Sl(R(-k - 1), R(-k) if k else None),))
         if mode == 'edge' or mode == 'symmetric':
@@ -121,13 +192,13 @@ def call_np(interp, name, args, kwargs, lineno):
             cv = kwargs.get('constant_values', ZERO)
             if not isinstance(cv, Rat):
                 raise AnalysisError("np.pad: constant_values must be a scalar")
-            l = r = A.const_arr((ONE,), cv)
+            l = r = A.const_arr((ONE,), cv, a.kind if a.kind == 'int' and A.scalar_kind(cv) == 'int' else 'real')
         else:
             raise AnalysisError(f"np.pad mode {mode!r} is not modelled")
         return Box(A.hstack(ctx, [l, a, r], origin=lineno))
     if name == 'reshape':
         order = kwargs.get('order', args[2] if len(args) > 2 else 'C')
-        return Box(A.reshape(ctx, args[0], args[1], origin=lineno, order=str(order)))
+        return _view_of(args[0], Box(A.reshape(ctx, args[0], args[1], origin=lineno, order=str(order))))
     if name in ('abs', 'absolute', 'sin', 'cos', 'tan', 'exp', 'log', 'sign', 'sqrt'):
         nm = 'abs' if name == 'absolute' else name
         x = args[0]
@@ -246,10 +317,34 @@ def _to_bool01(x: Rat):
     return 1 - A.indicator('==', x)
 
 
+class ADtype:
+    """value of <array>.dtype: only its kind (int / real / bool) is tracked"""
+    def __init__(self, kind):
+        self.kind = kind
+
+    def __eq__(self, o):
+        return isinstance(o, ADtype) and o.kind == self.kind
+
+    def __hash__(self):
+        return hash(('dtype', self.kind))
+
+
+def _view_of(src, box):
+    """numpy returns a view of contiguous storage for reshape / ravel: remember whose memory the result shares, so that an
+    in-place store into it is attributed to the owner (the values are a snapshot; only the effect is tracked)"""
+    if isinstance(src, (Box, View)):
+        box.attrs['shares'] = src
+    if isinstance(src, Box) and src.base_zero and not src.log:
+        box.base_zero = True            # an untouched np.zeros(...) stays all-zero under reshape / ravel
+    return box
+
+
 def _is_int_dtype(dt):
     from .interp import Builtin
     if dt is None:
         return False
+    if isinstance(dt, ADtype):
+        return dt.kind == 'int'
     if isinstance(dt, Builtin) and dt.name == 'int':
         return True
     if isinstance(dt, str) and dt.startswith('int'):
@@ -272,7 +367,10 @@ def call_method(interp, obj, name, args, kwargs, lineno):
     if is_arraylike(obj):
         a = snap(obj)
         if name in ('ravel', 'flatten'):
-            return Box(A.ravel_arr(ctx, a))
+            r = Box(A.ravel_arr(ctx, a))
+            if name == 'flatten' and isinstance(obj, Box) and obj.base_zero and not obj.log:
+                r.base_zero = True
+            return _view_of(obj, r) if name == 'ravel' else r
         if name == 'copy':
             if isinstance(obj, Box) and A.is_flatvec(obj):
                 return A._clone_vec(obj)
@@ -285,7 +383,7 @@ def call_method(interp, obj, name, args, kwargs, lineno):
         if name == 'reshape':
             shp = args[0] if len(args) == 1 else tuple(args)
             order = kwargs.get('order', 'C')
-            return Box(A.reshape(ctx, a, shp, origin=lineno, order=str(order)))
+            return _view_of(obj, Box(A.reshape(ctx, a, shp, origin=lineno, order=str(order))))
         if name in ('sum', 'max', 'min'):
             from .npmodel import call_np
             return call_np(interp, name, [a], {}, lineno)
